@@ -17,15 +17,13 @@ pub static mut F32_VALUE: f32 = 0.0;
 pub static mut PARSE_CALLS: u32 = 0;
 
 pub fn int_from_i128<N>(v: i128) -> N {
+    // loop-free: one memcpy of size_of::<N>() low-order bytes (little endian)
     let mut out = core::mem::MaybeUninit::<N>::uninit();
     let src = v.to_le_bytes();
-    let p = out.as_mut_ptr() as *mut u8;
-    let mut i = 0;
-    while i < core::mem::size_of::<N>() {
-        unsafe { *p.add(i) = src[i] };
-        i += 1;
+    unsafe {
+        core::ptr::copy_nonoverlapping(src.as_ptr(), out.as_mut_ptr() as *mut u8, core::mem::size_of::<N>());
+        out.assume_init()
     }
-    unsafe { out.assume_init() }
 }
 
 fn str_eq(a: &str, b: &str) -> bool {
